@@ -15,6 +15,7 @@ mod util;
 mod writer;
 mod timing;
 mod hitobj;
+mod roundtrip;
 mod sections;
 mod whole;
 
@@ -65,6 +66,7 @@ fn dispatch_impl(toks: &[&str]) -> String {
         .or_else(|| sections::dispatch_impl(toks))
         .or_else(|| hitobj::dispatch_impl(toks))
         .or_else(|| whole::dispatch_impl(toks))
+        .or_else(|| roundtrip::dispatch_impl(toks))
         .or_else(|| events::dispatch_impl(toks))
         .unwrap_or_else(|| "bad-request".to_owned())
 }
@@ -79,6 +81,7 @@ fn dispatch_prop(toks: &[&str]) -> String {
         .or_else(|| sections::dispatch_prop(toks))
         .or_else(|| hitobj::dispatch_prop(toks))
         .or_else(|| whole::dispatch_prop(toks))
+        .or_else(|| roundtrip::dispatch_prop(toks))
         .or_else(|| c15::dispatch_prop(toks))
         .or_else(|| events::dispatch_prop(toks))
         .unwrap_or_else(|| "SKIP no-oracle".to_owned())
